@@ -42,7 +42,7 @@ QUERY_FNS = [
     ("cls_array", 3, 1),
 ]
 
-IMPORT_QUERIES = ["parse", "make_contr", "from_pyscf"]
+IMPORT_QUERIES = ["parse", "make_contr", "from_pyscf", "from_iodata"]
 
 NP_MODES = ["ignore", "warn", "raise", "call"]
 
@@ -80,16 +80,18 @@ def _weights(cfg):
     if cfg["profile"] == "C18":
         w = {
             "new_coords": 4, "new_shell": 2, "new_container": 2, "write_file": 14, "parse": 16,
-            "make_contr": 18, "new_mole": 5, "from_pyscf": 8, "update": 3, "scribble": 2, "query": 10,
+            "make_contr": 18, "new_mole": 5, "from_pyscf": 8, "new_iodata": 1, "from_iodata": 1, "update": 3, "scribble": 2,
+            "query": 10,
         }
     else:
         w = {
             "new_coords": 6, "new_shell": 8, "new_container": 6, "write_file": 3, "parse": 3,
-            "make_contr": 5, "new_mole": 2, "from_pyscf": 2, "update": 9, "scribble": 4, "query": 52,
+            "make_contr": 5, "new_mole": 2, "from_pyscf": 2, "new_iodata": 2, "from_iodata": 3, "update": 9, "scribble": 4,
+            "query": 52,
         }
     f = cfg.get("focus")
     if f == "import":
-        for k in ("write_file", "parse", "make_contr", "from_pyscf"):
+        for k in ("write_file", "parse", "make_contr", "from_pyscf", "from_iodata"):
             w[k] *= 3
     elif f == "update":
         w["update"] *= 3
@@ -320,6 +322,52 @@ def g_from_pyscf(rng, cfg, keep=None):
     return op
 
 
+CART_CONV = {
+    0: ["1"], 1: ["x", "y", "z"], 2: ["xx", "xy", "xz", "yy", "yz", "zz"],
+    3: ["xxx", "xxy", "xxz", "xyy", "xyz", "xzz", "yyy", "yyz", "yzz", "zzz"],
+}
+
+
+def _sph_conv(l, rng):
+    out = ["c0"]
+    for m in range(1, l + 1):
+        out += ["c%d" % m, "s%d" % m]
+    if rng.random() < 0.3:
+        out = [("-" + x) if (i % 3 == 2) else x for i, x in enumerate(out)]
+    return out
+
+
+def g_new_iodata(rng, cfg):
+    n = rng.randint(1, 3)
+    atcoords = [_xyz(rng, cfg["coord_scale"]) for _ in range(n)]
+    shells = []
+    lmax = min(cfg["max_l"], 3)
+    for _ in range(rng.randint(1, 4)):
+        K = rng.randint(1, cfg["max_K"])
+        l = rng.randint(0, lmax)
+        shells.append({"icenter": rng.randrange(n), "l": l, "kind": rng.choice(["c", "p"]) if l >= 2 else "c",
+                       "exps": [_exp(rng) for _ in range(K)], "coeffs": [_coef(rng) for _ in range(K)]})
+    conv = {}
+    for l in range(0, 4):
+        c = list(CART_CONV[l])
+        if rng.random() < 0.3:
+            c = c[::-1]
+        conv["%d,c" % l] = c
+        if l >= 2 or rng.random() < 0.5:
+            conv["%d,p" % l] = _sph_conv(l, rng)
+    return {"op": "new_iodata", "atcoords": atcoords, "shells": shells, "conventions": conv}
+
+
+def g_from_iodata(rng, cfg, keep=None):
+    keep = (rng.random() < 0.35) if keep is None else keep
+    op = {"op": "from_iodata", "md": rng.randrange(D), "keep": keep}
+    if not keep:
+        op["env"] = g_env(rng, cfg)
+        op["fault"] = g_fault(rng, cfg)
+        op["invalid"] = g_invalid(rng, cfg)
+    return op
+
+
 def g_update(rng, cfg):
     K = rng.randint(1, cfg["max_K"])
     M = rng.randint(1, cfg["max_M"])
@@ -413,6 +461,8 @@ GEN = {
     "make_contr": g_make_contr,
     "new_mole": g_new_mole,
     "from_pyscf": g_from_pyscf,
+    "new_iodata": g_new_iodata,
+    "from_iodata": g_from_iodata,
     "update": g_update,
     "scribble": g_scribble,
     "query": g_query,
@@ -428,7 +478,7 @@ SWEEP_CHUNK = 24
 def sweep_targets(profile):
     if profile == "C18":
         return ["parse", "make_contr", "from_pyscf"]
-    return [q[0] for q in QUERY_FNS] + ["make_contr", "from_pyscf", "parse"]
+    return [q[0] for q in QUERY_FNS] + ["make_contr", "from_pyscf", "parse", "from_iodata"]
 
 
 def gen_sweep(seed, profile):
@@ -448,6 +498,8 @@ def gen_sweep(seed, profile):
             ops.append(g_make_contr(rng, cfg, keep=True))
         if target == "from_pyscf":
             ops.append(g_new_mole(rng, cfg))
+        if target == "from_iodata":
+            ops.append(g_new_iodata(rng, cfg))
     else:
         for _ in range(rng.randint(1, 2)):
             ops.append(g_new_shell(rng, cfg))
@@ -461,6 +513,8 @@ def gen_sweep(seed, profile):
         q = g_make_contr(rng, cfg2, keep=False)
     elif target == "from_pyscf":
         q = g_from_pyscf(rng, cfg2, keep=False)
+    elif target == "from_iodata":
+        q = g_from_iodata(rng, cfg2, keep=False)
     else:
         q = g_query(rng, cfg2, fn=target)
         q["keep"] = None
